@@ -10,6 +10,9 @@ R16.4 the controller state is written back in a finally
 
 Added in build round 2 (see DESIGN.md section 3, round-2 table):
 R16.5 nested-model initialisation: the projection (_ParamProjection.update_param_rules) writes the projected value of every rule under one key; the ...
+
+Added later in build rounds 2-3 (see DESIGN.md section 3, round-2/3 table):
+R16.6 the app-level initialiser hands initialise_from_nested ONE likelihood function: model_result.lf is a mapping {identifier: lf} when the result holds ...
 """
 
 from __future__ import annotations
